@@ -71,13 +71,15 @@ def _alarm(signum, frame):
 
 
 def _run_case(args):
-    modname, cid, tier, path_timeout = args
+    modname, cid, tier, path_timeout = args[:4]
+    faithful = len(args) > 4 and args[4]
     t0 = time.time()
-    res = dict(case=cid, status="ok", error=None)
+    res = dict(case=cid, status="ok", error=None, faithful_enums=bool(faithful))
     try:
         from . import stubs, core
         from .core import Ctx, EngineLimit, PathTimeout
         stubs.install()
+        stubs.ENUM_FAITHFUL = bool(faithful)
         mod, cs = load_cases(modname, tier)
         case = _by_id(modname, tier, cs)[cid]
         known = [k for k in load_known(mod.PROPERTY) if k.get("family") in (None, case.family)]
@@ -153,43 +155,14 @@ def replay_batch(items):
     return json.loads(p.stdout)
 
 
-# --------------------------------------------------------------------------- main entry
-def run_property(modname, tier, seed, jobs=None, only=None, verbose=False):
-    t0 = time.time()
-    import spacepackets
-    if not os.path.realpath(spacepackets.__file__).startswith(os.path.realpath(REPO).rstrip("/") + "/"):
-        print("HARNESS-ERROR spacepackets imported from %s, not from %s" % (spacepackets.__file__, REPO))
-        return 2
-    mod, cs = load_cases(modname, tier)
-    prop = mod.PROPERTY
-    if only:
-        cs = [c for c in cs if only in c.id]
-    from . import selftest
-    v1 = selftest.validate_stubs(seed)
-    if not v1["ok"]:
-        print("HARNESS-ERROR stub validation failed: %s" % v1["failures"][:3])
-        return 2
-    jobs = jobs or min(16, os.cpu_count() or 1)
-    path_timeout = getattr(mod, "PATH_TIMEOUT", 60)
-    args = [(modname, c.id, tier, path_timeout) for c in sorted(cs, key=lambda c: -c.budget)]
-    results = []
-    ctxm = multiprocessing.get_context("fork")
-    with ctxm.Pool(min(jobs, max(1, len(args))), maxtasksperchild=24) as pool:
-        for r in pool.imap_unordered(_run_case, args, chunksize=1):
-            results.append(r)
-            if verbose:
-                print("  case %-46s %-12s paths=%-6s q=%-6s solver=%.1fs wall=%.1fs viol=%d known=%d %s" % (
-                    r["case"], r["status"], r.get("paths"), r.get("queries"), r.get("solver_s", 0), r["wall_s"],
-                    len(r.get("violations", [])), len(r.get("known_hits", [])), r.get("error") or ""), flush=True)
-    results.sort(key=lambda r: r["case"])
-    by_id = {c.id: c for c in cs}
+def _classify(results, by_id, modname, prop, tier):
+    """status, vacuity and replay of everything the symbolic runs produced"""
+    nonrepro = set()
 
     harness_errors = []
     for r in results:
         if r["status"] in ("harness_error", "inconclusive"):
             harness_errors.append("%s: %s %s" % (r["case"], r["status"], r["error"]))
-            if verbose and r.get("trace"):
-                print(r["trace"])
 
     # vacuity: every label of every finished case was reached; cases have paths
     for r in results:
@@ -246,6 +219,8 @@ def run_property(modname, tier, seed, jobs=None, only=None, verbose=False):
                                    observed=[x for x in out.get("failed", []) if x[0] == v["label"]]), f, indent=1)
                 confirmed.append((r["case"], v["label"], path, v))
             else:
+                if not r.get("faithful_enums"):
+                    nonrepro.add(r["case"])
                 harness_errors.append("%s: counterexample for %s did not reproduce on the unshimmed library "
                                       "(inputs %s; concrete failed=%s)" % (r["case"], v["label"],
                                                                          json.dumps(v["inputs"])[:300], failed))
@@ -272,6 +247,60 @@ def run_property(modname, tier, seed, jobs=None, only=None, verbose=False):
             else:
                 harness_errors.append("%s: symbolic path timed out but the concrete run terminates "
                                       "(engine slowness, not a hang)" % r["case"])
+    return dict(errors=harness_errors, confirmed=confirmed, known_confirmed=known_confirmed, validated=validated,
+                nonrepro=nonrepro)
+
+
+# --------------------------------------------------------------------------- main entry
+def run_property(modname, tier, seed, jobs=None, only=None, verbose=False):
+    t0 = time.time()
+    import spacepackets
+    if not os.path.realpath(spacepackets.__file__).startswith(os.path.realpath(REPO).rstrip("/") + "/"):
+        print("HARNESS-ERROR spacepackets imported from %s, not from %s" % (spacepackets.__file__, REPO))
+        return 2
+    mod, cs = load_cases(modname, tier)
+    prop = mod.PROPERTY
+    if only:
+        cs = [c for c in cs if only in c.id]
+    from . import selftest
+    v1 = selftest.validate_stubs(seed)
+    if not v1["ok"]:
+        print("HARNESS-ERROR stub validation failed: %s" % v1["failures"][:3])
+        return 2
+    jobs = jobs or min(16, os.cpu_count() or 1)
+    path_timeout = getattr(mod, "PATH_TIMEOUT", 60)
+    by_id = {c.id: c for c in cs}
+    ctxm = multiprocessing.get_context("fork")
+
+    def run_cases(ids, faithful):
+        args = [(modname, c.id, tier, path_timeout, faithful) for c in sorted((by_id[i] for i in ids), key=lambda c: -c.budget)]
+        out = []
+        with ctxm.Pool(min(jobs, max(1, len(args))), maxtasksperchild=24) as pool:
+            for r in pool.imap_unordered(_run_case, args, chunksize=1):
+                out.append(r)
+                if verbose:
+                    print("  case %-46s %-12s paths=%-6s q=%-6s solver=%.1fs wall=%.1fs viol=%d known=%d %s%s" % (
+                        r["case"], r["status"], r.get("paths"), r.get("queries"), r.get("solver_s", 0), r["wall_s"],
+                        len(r.get("violations", [])), len(r.get("known_hits", [])), r.get("error") or "",
+                        " [enum members]" if faithful else ""), flush=True)
+                    if r["status"] in ("harness_error", "inconclusive") and r.get("trace"):
+                        print(r["trace"])
+        return out
+
+    results = run_cases([c.id for c in cs], False)
+    cl = _classify(results, by_id, modname, prop, tier)
+    if cl["nonrepro"]:
+        # a counterexample that does not reproduce is usually the enum stand-in (a symbolic integer where the library
+        # would hold an enum member: `is` tests and type checks see the difference).  Decide those cases again with
+        # Enum(x) branching over the real members; only what fails to reproduce then is a harness error.
+        retry = sorted(cl["nonrepro"])
+        print("note: %d case(s) re-decided with enum-member branching after a non-reproducing counterexample: %s" % (
+            len(retry), ", ".join(retry[:8]) + (" ..." if len(retry) > 8 else "")))
+        again = run_cases(retry, True)
+        results = [r for r in results if r["case"] not in set(retry)] + again
+        cl = _classify(results, by_id, modname, prop, tier)
+    results.sort(key=lambda r: r["case"])
+    harness_errors, confirmed, known_confirmed, validated = cl["errors"], cl["confirmed"], cl["known_confirmed"], cl["validated"]
     for r in results:
         if r.get("expect_violation") and r["status"] == "ok" and not r.get("twin_ok"):
             harness_errors.append("%s: reachability twin did not come back violated (vacuous harness?)" % r["case"])
